@@ -86,7 +86,8 @@ func Run(d *fw.Driver, res *fw.Result, seed int64, thorough bool) error {
 			if sp == -1 {
 				sp = p.P
 			}
-			if err := healthy(d, res, seed, p, sp, base); err != nil {
+			p, sp, base := p, sp, base
+			if err := fw.Confirmed(res, "healthy", func(r *fw.Result) error { return healthy(d, r, seed, p, sp, base) }); err != nil {
 				return err
 			}
 		}
@@ -97,7 +98,7 @@ func Run(d *fw.Driver, res *fw.Result, seed int64, thorough bool) error {
 			}
 		}
 	}
-	if err := c05.KeepaliveAfterHeal(d, res, seed+900); err != nil {
+	if err := fw.Confirmed(res, "keepalive-after-heal", func(r *fw.Result) error { return c05.KeepaliveAfterHeal(d, r, seed+900) }); err != nil {
 		return err
 	}
 	// keepalive switched off but a timeout configured: the read deadline alone must notice a silent peer
@@ -110,11 +111,13 @@ func Run(d *fw.Driver, res *fw.Result, seed int64, thorough bool) error {
 		return err
 	}
 	base += 20
-	if err := healNearTimeout(res, seed, base); err != nil {
+	hb := base
+	if err := fw.Confirmed(res, "heal-near-timeout", func(r *fw.Result) error { return healNearTimeout(r, seed, hb) }); err != nil {
 		return err
 	}
 	base += 20
-	if err := stalledSubscriber(res, seed, base); err != nil {
+	sb := base
+	if err := fw.Confirmed(res, "stalled-subscriber", func(r *fw.Result) error { return stalledSubscriber(r, seed, sb) }); err != nil {
 		return err
 	}
 	return slowPeer(res)
@@ -503,7 +506,11 @@ loop:
 	res.Count("stalled-subscriber")
 	res.Eval(true, []interface{}{"stalled-subscriber"})
 	if lag > T/4 {
+		// (scen.LagProbe: the scheduler, or the hook runtime itself, held goroutines of the library for a
+		// sizeable part of the timeout — with some 700 000 hook events recorded in this scenario the second
+		// is the likelier one; the idle timer does not wait for them)
 		res.Count("stalled-subscriber.inconclusive-slow-environment")
+		res.Note(fmt.Sprintf("%s: inconclusive — goroutines of the library were held for up to %v (scheduling lag or time inside the hook runtime) with timeout %v; the client connected %d time(s)", sig, lag, T, n))
 		return nil
 	}
 	switch {
